@@ -805,10 +805,10 @@ def run(ctx):
                 "types: structs and enums (0-5 variants) with unit, `()`, `{}`, tuple and named shapes of 0-5 fields, field types from 16 leaf types (ints, floats, str/String with "
                 "newlines/quotes/unicode, char, bool, unit, references, rt::Spy which prints every flag it receives), Option/Vec/Box/array/Result/BTreeMap/tuple wrappers and earlier "
                 "types of the same module (nesting depth <= 3), type/lifetime/const parameters (parameters used only in skipped fields bound to a type without Debug), raw-identifier "
-                "type/variant/field names, per-field none/skip/ignore/#[debug(\"lit\", args)] from 21 literal templates, plus all subsets of skipped fields for 0-4 fields (tuple and named); "
-                "each value (2 per struct, 1 per variant) is formatted under 24/48 specs (20 fixed ones + a random sample of the fill x align x sign x # x 0 x width x precision x hex grid), "
+                "type/variant/field names, per-field none/skip/ignore/#[debug(\"lit\", args)] from 26 literal templates, plus all subsets of skipped fields for 0-4 fields (tuple and named); "
+                "each value (2 per struct, 1 per variant) is formatted under 32/48 specs (14-18 of 20 fixed ones + a random sample of the fill x align x sign x # x 0 x width x precision x hex grid), "
                 "half of them again inside Some/vec!/tuple/Box/&&; distinct = distinct (struct|enum, set of field-shape kinds with arity, skip, fmt, generic, raw names, raw fields, nested) tuples; "
-                "cases without any printed field difference are still counted since every case formats at least one value under >= 24 specs")
+                "cases without any printed field difference are still counted since every case formats at least one value under >= 32 specs")
     ctx.assumptions += [
         "std's #[derive(Debug)] and core::fmt::{DebugTuple, DebugStruct} (incl. finish_non_exhaustive) of the installed toolchain are the reference",
         "the hand-written reference impls use only std's builders and format_args! with the attribute's literal and arguments verbatim",
@@ -859,8 +859,8 @@ def run(ctx):
             short += 1
     ctx.extra["model_differs_from_std"] = model_diffs
     for c in cases[:2] + cases[len(sk) // 4:len(sk) // 4 + 6] + cases[-3:]:
-        evs = [{"spec": e["kind"], "derive_more": e["got"], "std": e["want"]} for e in res.events.get(c.id, []) if "got" in e]
+        evs = [{"spec": e["kind"], "derive_more": e["got"][:400], "std": e["want"][:400]} for e in res.events.get(c.id, []) if "got" in e]
         pick = [x for x in evs if x["spec"].endswith("{:#?}")][:1] + evs[:1] + evs[5:6]
-        ctx.sample({"types": c.meta["types"], "values": c.meta["vfun"][:2], "events": pick})
+        ctx.sample({"types": c.meta["types"], "values": c.meta["vfun"][:2], "events": pick}, cap=11)
     if not_run or short:
         raise Inconclusive("some cases did not run to completion: not_run=%d short=%d" % (not_run, short))
